@@ -1037,7 +1037,7 @@ package seccomp
 //@   modifies ghost.att, ghost.nseccomp, ghost.kop, ghost.kflags, ghost.ka3, ghost.strict
 //@   ensures @one_call {C09 C10} ghost.nseccomp == old(ghost.nseccomp) + 1 && ghost.nprctl == old(ghost.nprctl) && ghost.nnp == old(ghost.nnp)
 //@   ensures @args {C10} ghost.kop == op && ghost.kflags == zext64(flags) && uptrOf(ghost.ka3) == uargs
-//@   ensures @attached {C09} op == 1 && result == nil ==> (ghost.nnp[ghost.cur] || ghost.priv) && ghost.att == ite(flags & 1 != 0, allThreads, store(old(ghost.att), ghost.cur, true))
+//@   ensures @attached {C08 C09} op == 1 && result == nil ==> (ghost.nnp[ghost.cur] || ghost.priv) && ghost.att == ite(flags & 1 != 0, allThreads, store(old(ghost.att), ghost.cur, true))
 //@   ensures @refused {C09} op == 1 && result != nil ==> ghost.att == old(ghost.att)
 //@   ensures @accepted {C11} op == 1 && (ghost.nnp[ghost.cur] || ghost.priv) && ghost.kwould ==> result == nil
 //@   ensures @unprivileged {C11} op == 1 && !(ghost.nnp[ghost.cur] || ghost.priv) ==> result != nil
@@ -1077,7 +1077,7 @@ package seccomp
 //@   ghost ghost.cur = ite(ghost.locked, ghost.cur, ghost.anycur) at before call seccomp#1
 //@   assert @nnp_before_install {C11} filter.NoNewPrivs ==> ghost.nnp[ghost.cur] at before call seccomp#1
 //@   assert @handover {C08} nonnil(program) && program.Len == len(sockFilter) && len(sockFilter) == len(insts) && nonnil(program.Filter) && *program.Filter == sockFilter[0] && forall(i, 0, len(insts), encodes(insts[i], raw[i])) && forall(i, 0, len(insts), sockFilter[i].Code == raw[i].Op && sockFilter[i].Jt == raw[i].Jt && sockFilter[i].Jf == raw[i].Jf && sockFilter[i].K == raw[i].K) at before call seccomp#1
-//@   ensures @in_force {C09} result == nil ==> ghost.att[ghost.cur] && (filter.Flag & 1 != 0 ==> ghost.att == allThreads)
+//@   ensures @in_force {C08 C09} result == nil ==> ghost.att[ghost.cur] && (filter.Flag & 1 != 0 ==> ghost.att == allThreads)
 //@   ensures @refused {C09} ghost.att != noThreads ==> result == nil
 //@   ensures @one_seccomp {C09 C10} result == nil ==> ghost.nseccomp == old(ghost.nseccomp) + 1 && ghost.kop == 1 && ghost.kflags == zext64(filter.Flag)
 //@   ensures @program_arg {C08} result == nil ==> nonnil(uptrTo(ghost.ka3, syscall.SockFprog))
